@@ -62,12 +62,29 @@ func limitedReadAll(reader io.Reader) ([]byte, error) {
 	return result, err
 }
 
+// maxRedirects is the maximum number of redirects that is followed (same as the default of http.Client).
+const maxRedirects = 10
+
+// checkRedirect is the redirect policy of the HTTP clients created by this package.
+// StrictHTTPClient.Do only sees the initial request, so redirects need to be checked separately:
+// in strict mode a redirect to a non-HTTPS URL is refused.
+func checkRedirect(req *http.Request, via []*http.Request) error {
+	if StrictMode && req.URL.Scheme != "https" {
+		return errors.New("strictmode is enabled, but redirect is not over HTTPS")
+	}
+	if len(via) >= maxRedirects {
+		return fmt.Errorf("stopped after %d redirects", maxRedirects)
+	}
+	return nil
+}
+
 // New creates a new HTTP client with the given timeout.
 func New(timeout time.Duration) *StrictHTTPClient {
 	return &StrictHTTPClient{
 		client: &http.Client{
-			Transport: SafeHttpTransport,
-			Timeout:   timeout,
+			Transport:     SafeHttpTransport,
+			Timeout:       timeout,
+			CheckRedirect: checkRedirect,
 		},
 	}
 }
@@ -77,8 +94,9 @@ func New(timeout time.Duration) *StrictHTTPClient {
 func NewWithCache(timeout time.Duration) *StrictHTTPClient {
 	return &StrictHTTPClient{
 		client: &http.Client{
-			Transport: DefaultCachingTransport,
-			Timeout:   timeout,
+			Transport:     DefaultCachingTransport,
+			Timeout:       timeout,
+			CheckRedirect: checkRedirect,
 		},
 	}
 }
@@ -91,8 +109,9 @@ func NewWithTLSConfig(timeout time.Duration, tlsConfig *tls.Config) *StrictHTTPC
 	transport.TLSClientConfig = tlsConfig
 	return &StrictHTTPClient{
 		client: &http.Client{
-			Transport: transport,
-			Timeout:   timeout,
+			Transport:     transport,
+			Timeout:       timeout,
+			CheckRedirect: checkRedirect,
 		},
 	}
 }
